@@ -24,6 +24,7 @@ inductive Diag
   | contextMissing | contextUnsatisfied | overlappingSignatures
   | enumUnknownMissing | enumKeyMissing | enumTargetMissing | enumMismatch | enumInvalidTarget
   | enumTransformerError | enumTransformerEmpty | enumUnderlyingConflict | enumErrorNotAllowed
+  | structMethodSig         -- a source struct method whose signature cannot be used (method.Parse rejects it)
   | unsupported (why : String)
   | outOfFuel
   deriving Repr, DecidableEq, Inhabited
@@ -117,17 +118,17 @@ def isEnumPair (c : Converter) (cfg : Common) (s t : Ty) : Bool :=
 
 inductive FieldHit
   | field (name : S) (ty : Ty)
-  | method (name : S)             -- a method of the named source type: outside the modelled fragment
+  | method (name : S) (d : MethodDecl) (pkg : S)   -- a method declared on the named source type (and its package)
   deriving Repr, Inhabited
 
 /-- `findAllFields` on one struct: the exact match (if any) and the case-insensitive matches in order -/
 def findAllFields (c : Converter) (t : Ty) (name : S) (ignoreCase : Bool) : Option FieldHit × List FieldHit :=
   let fs := match isStruct c.env t with | some fs => fs.toList | none => []
   let ms := match t with
-    | .named id => match c.env.find id with | some d => d.methods.map (fun (m : MethodDecl) => m.name) | none => []
+    | .named id => match c.env.find id with | some d => d.methods.map (fun (m : MethodDecl) => FieldHit.method m.name m d.pkgPath) | none => []
     | _ => []
-  let cands : List FieldHit := fs.map (fun (f, ty) => .field f.name ty) ++ ms.map .method
-  let nameOf : FieldHit → S := fun h => match h with | .field n _ => n | .method n => n
+  let cands : List FieldHit := fs.map (fun (f, ty) => .field f.name ty) ++ ms
+  let nameOf : FieldHit → S := fun h => match h with | .field n _ => n | .method n _ _ => n
   -- the scan stops at the first exact match; case-insensitive matches seen before it are returned too
   let rec scan (l : List FieldHit) (acc : List FieldHit) : Option FieldHit × List FieldHit :=
     match l with
@@ -395,10 +396,13 @@ structure Mapped where
   guarded : Bool
   leafIsPtr : Bool
   nextSource : Ty
+  /-- the path ends in a method of the struct reached by `path`: (name, declaration, package of the receiver type) -/
+  method : Option (S × MethodDecl × S) := none
   deriving Inhabited
 
-def walkPath (c : Converter) : List S → Ty → List Bool → Bool → Except Diag (Ty × List Bool × Bool)
-  | [], cur, derefs, guarded => .ok (cur, derefs, guarded)
+/-- walk the field path; a method may only be the last element (its func type is neither struct nor pointer) -/
+def walkPath (c : Converter) : List S → Ty → List Bool → Bool → Except Diag (Ty × List Bool × Bool × Option (S × MethodDecl × S))
+  | [], cur, derefs, guarded => .ok (cur, derefs, guarded, none)
   | p :: rest, cur, derefs, guarded =>
     let (cur', d, g) := match isPtr c.env cur with
       | some e => (e, true, true)
@@ -408,7 +412,8 @@ def walkPath (c : Converter) : List S → Ty → List Bool → Bool → Except D
     | some _ =>
       match findExactField c cur' p with
       | some (.field _ ty) => walkPath c rest ty (derefs ++ [d]) g
-      | some (.method _) => .error (.unsupported "source method")
+      | some (.method n md pkg) =>
+        if rest.isEmpty then .ok (cur', derefs ++ [d], g, some (n, md, pkg)) else .error .cannotAccess
       | none => .error .cannotFind
 
 /-- `parseAutoMap` -/
@@ -425,7 +430,7 @@ def parseAutoMap (c : Converter) (cx : Ctx) (source : Ty) : Except Diag (List (L
         else
         match findExactField c cur p with
         | none => .error .autoMapNotFound
-        | some (.method _) => .error (.unsupported "source method")
+        | some (.method _ _ _) => .error .autoMapNotStruct
         | some (.field _ ty) =>
           match isPtr c.env ty with
           | some e =>
@@ -449,20 +454,47 @@ def mapField (c : Converter) (cx : Ctx) (target : Ty) (fname : S) (source : Ty) 
       if def_.source.isEmpty then
         match findField c fname cx.cfg.common.matchIgnoreCase source extra with
         | .one p (.field n _) => pure (some (p ++ [n]))
-        | .one _ (.method _) => throw (.unsupported "source method")
+        | .one p (.method n _ _) => pure (some (p ++ [n]))
         | .noMatch => if cx.cfg.common.ignoreMissing then pure none else throw .noMatch
         | .ambiguous => throw .ambiguous
       else pure (some (splitOn '.' def_.source))
     match path with
     | none => pure none
     | some path =>
-      let (leaf, derefs, guarded) ← walkPath c path source [] false
+      let (leaf, derefs, guarded, meth) ← walkPath c path source [] false
+      match meth with
+      | some (n, md, pkg) =>
+        -- method.Parse with ParamsNone and the context pattern `.*`: every parameter is a context
+        if !md.exported && !pkg.isEmpty && pkg != c.outputPkg then throw .structMethodSig
+        if md.sig.variadic then throw (.unsupported "variadic source method")
+        let res ← match md.sig.results with
+          | [r] => pure (r, false)
+          | [r, e] => if e == Ty.named "error".toList then pure (r, true) else throw .structMethodSig
+          | _ => throw .structMethodSig
+        let resIsPtr := (isPtr c.env res.1).isSome
+        let next := if guarded && !resIsPtr then Ty.ptr res.1 else res.1
+        pure (some { path := path.dropLast, derefs := derefs, guarded := guarded, leafIsPtr := resIsPtr, nextSource := next,
+                     method := some (n, { md with sig := { md.sig with results := [res.1] ++ (if res.2 then [Ty.named "error".toList] else []) } }, pkg) })
+      | none =>
       (match under c.env leaf with
-       | .opaque .func _ => throw (.unsupported "source method")
+       | .opaque .func _ => throw (.unsupported "func-typed source field")
        | _ => pure ())
       let leafIsPtr := (isPtr c.env leaf).isSome
       let next := if guarded && !leafIsPtr then .ptr leaf else leaf
       pure (some { path := path, derefs := derefs, guarded := guarded, leafIsPtr := leafIsPtr, nextSource := next })
+
+/-- the call of a source struct method found by `mapField` (`gen.CallMethod(ctx, def, nil, nil, def.Target, errPath)`) -/
+def structMethodCall (c : Converter) (cx : Ctx) (mp : Mapped) (fpath : List PathElem) : M (Option Conv) :=
+  match mp.method with
+  | none => pure none
+  | some (n, md, pkg) => do
+    let res := md.sig.results.headD (.opaque .unknown [])
+    let ctxTys := md.sig.params.foldl (fun (acc : List Ty) (p : S × Ty) => if tyMem p.2 acc then acc else acc ++ [p.2]) []
+    let d : FnDef := { name := n, pkgPath := pkg, source := none, target := res,
+                       args := md.sig.params.map (fun (p : S × Ty) => { name := p.1, use := .context, ty := p.2 }),
+                       contexts := ctxTys, returnError := md.sig.results.length == 2 }
+    let cl ← callMethod c cx (.structMethod n) d none res fpath
+    pure (some cl)
 
 inductive Mode
   | build
@@ -712,9 +744,12 @@ mutual
           | .error d => fail d
           | .ok none => return FieldPlan.skip f.name
           | .ok (some mp) =>
+            let mcall ← structMethodCall c cx mp fpath
             let cv ← conv c fuel cx (.assign false false) false mp.nextSource fty fpath
             let z := shouldCheckZero c cx mp.nextSource fty isUpdate false
-            return FieldPlan.mapped f.name mp.path mp.derefs mp.guarded mp.leafIsPtr cv (if z then .check else .none)
+            match mcall with
+            | some cl => return FieldPlan.viaMethod f.name mp.path mp.derefs mp.guarded cl mp.leafIsPtr cv (if z then .check else .none)
+            | none => return FieldPlan.mapped f.name mp.path mp.derefs mp.guarded mp.leafIsPtr cv (if z then .check else .none)
         | some fi =>
           let some d := c.customs[fi]? | fail (.unsupported "bad custom index")
           match d.source with
@@ -723,6 +758,7 @@ mutual
             | .error e => fail e
             | .ok none => fail .noMatch        -- the code does not honour `skip` here: it reports the error
             | .ok (some mp) =>
+              let mcall ← structMethodCall c cx mp fpath
               -- `map . X | F` below a dereferenced pointer: F may take the pointer itself (JenID.ParentPointer)
               let viaParent := fm.source == ['.'] && parentPtr &&
                 (match d.source with | some ds => assignable c (.ptr s) ds | none => false)
@@ -732,7 +768,9 @@ mutual
                 | .call cl as re w => .call cl (as.map (fun a => match a with | .source => CallArg.sourceParent | x => x)) re w
                 | x => x) else cv
               let z := shouldCheckZero c cx srcTy fty isUpdate true
-              return FieldPlan.mapped f.name mp.path mp.derefs mp.guarded mp.leafIsPtr cv (if z then .check else .none)
+              match mcall with
+              | some cl => return FieldPlan.viaMethod f.name mp.path mp.derefs mp.guarded cl mp.leafIsPtr cv (if z then .check else .none)
+              | none => return FieldPlan.mapped f.name mp.path mp.derefs mp.guarded mp.leafIsPtr cv (if z then .check else .none)
           | none =>
             let cv ← callMethod c cx (.custom fi) d none fty fpath
             return FieldPlan.mapped f.name [] [] false false cv .none)
